@@ -321,7 +321,7 @@ fn resume_step(out: u8) {
             0 => {
                 if in_syscall_at_end {
                     kani::assert(matches!(got, Some(CoroutineState::Syscall(..))) && got == Some(after), "C07.yield_in_syscall_reports_that_syscall_state");
-                } else if unsafe { STEP_REQ } == 2 {
+                } else if unsafe { STEP_REQ } == 2 || unsafe { STEP_REQ } == 3 {
                     kani::assert(got == Some(CoroutineState::Cancelled) && after == CoroutineState::Cancelled, "C07.cancel_request_reports_cancelled");
                 } else {
                     kani::assert(matches!(got, Some(CoroutineState::Suspend(..))) && got == Some(after), "C07.plain_yield_reports_suspend");
